@@ -208,6 +208,43 @@ theorem sibling_no_overlap (v1 v2 : Nat) (p1Min p1Max p2Min p2Max gap : Rat)
   rintro ⟨lo, hi, hlen, _, h2, h3, _⟩
   linarith
 
+/-! ### rectangle-based clusters (`RectangularCluster(rectIndex)`) -/
+
+/-- the fixed-rectangle equalities pin the cluster's boundary variables to the two sides of the
+    container rectangle: cluster box = container rectangle in that dimension -/
+theorem fixedRect_sound (v rect : Nat) (half : Rat) (a : Asg) (h : AllHold (fixedRectSeps v rect half) a) :
+    a v = a rect - half ∧ a (v + 1) = a rect + half := by
+  have h1 := h _ (List.mem_cons_self)
+  have h2 := h _ (List.mem_cons_of_mem _ List.mem_cons_self)
+  simp only [Holds, if_true] at h1 h2
+  constructor <;> linarith
+
+theorem fixedRect_complete (v rect : Nat) (half : Rat) (a : Asg)
+    (h : a v = a rect - half ∧ a (v + 1) = a rect + half) : AllHold (fixedRectSeps v rect half) a := by
+  intro c hc
+  simp only [fixedRectSeps, List.mem_cons, List.mem_nil_iff, or_false] at hc
+  rcases hc with rfl | rfl <;> simp only [Holds, if_true] <;> linarith [h.1, h.2]
+
+/-- …so with the containment constraints (padding 0 for such clusters) every child node's interval
+    lies inside the container rectangle's interval -/
+theorem fixedRect_members_inside (v rect : Nat) (half : Rat) (nodes : List (Nat × Rat)) (children : List (Nat × Rat × Rat))
+    (a : Asg) (hf : AllHold (fixedRectSeps v rect half) a) (hc : AllHold (containmentSeps v 0 0 nodes children) a) :
+    ∀ p ∈ nodes, a rect - half ≤ a p.1 - p.2 ∧ a p.1 + p.2 ≤ a rect + half := by
+  intro p hp
+  obtain ⟨e1, e2⟩ := fixedRect_sound v rect half a hf
+  have := (containment_sound v 0 0 nodes children a hc).1 p hp
+  constructor <;> linarith [this.1, this.2]
+
+theorem withinTol_iff (tol : Rat) (r b : Rect) : withinTol tol r b = true ↔ WithinTol tol r b := by
+  unfold withinTol WithinTol
+  simp only [Bool.and_eq_true, decide_eq_true_eq, and_assoc]
+
+theorem membersWithin_iff (tol : Rat) (rs : Array Rect) (container : Nat) (members : List Nat) :
+    membersWithin tol rs container members = true ↔
+      ∀ i ∈ members, WithinTol tol (rs.getD i default) (rs.getD container default) := by
+  unfold membersWithin
+  simp only [List.all_eq_true, withinTol_iff]
+
 /-! ### checkers on the final rectangles -/
 
 theorem overlapLen_gt_iff (tol aLo aHi bLo bHi : Rat) :
